@@ -1,5 +1,6 @@
 import Cdecao.Model.Cdedb
 import Cdecao.Proofs.SpecExec
+import Cdecao.Proofs.LastIdx
 /-! # The CdE reader delivers a well-formed problem (C12)
 
 `CD.read` (model of io::cdedb::read) either fails or returns participants and courses whose
@@ -169,15 +170,8 @@ theorem readCourses_init {cdata : List (String × J)} {t : Nat} {o : Opts} {co :
 
 theorem courseIndex_lt {co : CoursesOut} {id c : Nat} (h : courseIndex co id = some (some c)) :
     c < co.courses.length := by
-  unfold courseIndex at h
-  split at h
-  · cases h
-  · split at h
-    · rename_i i hi
-      simp only [Option.some.injEq] at h
-      subst h
-      exact (List.findIdx?_eq_some_iff_getElem.1 hi).1
-    · cases h
+  obtain ⟨_, hc, _⟩ := (courseIndex_eq_some_some_iff co id c).1 h
+  exact hc
 
 /-- the `choices` array of a registration in the selected track, as the reader looks it up -/
 def regChoices (reg : J) (trackId : Nat) : Option (List J) :=
